@@ -38,13 +38,13 @@ type c15Env struct {
 }
 
 var c15Sources = map[string]string{
-	"ok.p":     "add_key(k, 1)\nx = 5\nadd_key(y, x)\nset_measurement(\"mm\")\n",
+	"ok.p":     "add_key(k, 1)\nx = 5\nadd_key(y, x)\nset_measurement(\"mm\")\nadd_key(total, f1 + 1)\nadd_key(where, t1 + \"!\")\nadd_key(twice, f2 * 2)\n",
 	"loop.p":   "secret = \"leaked-by-loop\"\nsecret2 = [9]\nfor i in [1, 2, 3] {\n inner = i\n add_key(k, i)\n if i == 2 { p(1 / zz) }\n}\n",
 	"exit.p":   "x = 1\nsecret = \"leaked-by-exit\"\nfor i in [1, 2] { if i == 1 { if true { inner = 7\nadd_key(e, i)\nexit() } } }\nadd_key(after, 1)\n",
 	"setv.p":   "secret = 42\nsecret2 = [1, 2]\n_ = \"shadowed message\"\nadd_key(done, 1)\n",
 	"readv.p":  "add_key(leak, secret)\nadd_key(leak2, secret2)\nadd_key(leak3, inner)\nadd_key(leak4, i)\nadd_key(leak5, x)\nadd_key(msgcopy, _)\nif secret == nil { add_key(clean, true) }\n",
 	"grok.p":   "add_pattern(\"wd\", \"[a-z]+\")\nok = grok(_, \"%{wd:w} %{INT:n:int}\")\nadd_key(ok)\nuse(\"ok.p\")\n",
-	"retag.p":  "drop_key(t1)\nset_tag(f1)\nadd_key(t1, \"now field\")\nrename(g, f1)\ncast(f2, \"str\")\n",
+	"retag.p":  "drop_key(t1)\nset_tag(f1)\nadd_key(t1, \"now field\")\nrename(g, f1)\ncast(f2, \"str\")\nadd_key(t2, drop_key(nokey))\nrename(t9, t2)\nset_tag(f3, obj.attr)\nrename(t8, f3)\nadd_key(f4, nil)\nrename(t7, f4)\nrename(t6, nokey)\n",
 	"spin.p":   "n = 0\nfor ;; { n = n + 1\nadd_key(n) }\n",
 	"lit.p":    "g = [[0, 0], [1]]\ng[0][0] += 1\nm = {\"k\": [0], \"j\": {\"n\": 0}}\nm[\"k\"][0] += 1\nm[\"j\"][\"n\"] = m[\"j\"][\"n\"] + 1\nadd_key(g0, g[0][0])\nadd_key(mk, m[\"k\"][0])\nadd_key(mj, m[\"j\"][\"n\"])\nif \"a\" in [\"a\", \"b\"] { add_key(found, true) }\n",
 }
@@ -131,6 +131,11 @@ func c15Ops() []c15Op {
 		load("lexer-error", "a = \"unterminated\nb = 2\n"),
 		load("parser-panic-input", "x = -0x\nfor a in 1e {}\n"),
 		load("check-error", "add_key(k, 1)\nnosuch(1)\n"),
+		// every lexer mode entered and left: back-quoted names, the three string forms, comments, nesting
+		load("all-token-kinds", "`a b` = [1, {\"k\": `q r`}, 'x', \"\"\"m\nn\"\"\", '''t'''] # c\nif `a b`[0] == 0x1F && !nil { f(a.b, x=1.5e3) } elif c { for i in a { break } } else { s = \"\\x41\\u00e9\" }\n"),
+		// errors whose text depends on the lexer's mode flags and nesting counters
+		load("escape-in-string-error", "s = \"a\\`b\"\n"),
+		load("error-inside-nesting", "x = [1, (2, {\"k\": `unterminated\n"),
 		runOp("ok.p", 0, 0),
 		runOp("loop.p", 1, 0),
 		runOp("exit.p", 0, 0),
@@ -177,9 +182,23 @@ func c15Exec(env *c15Env, ops []c15Op, hist []int, prefix []int) (last string, p
 		taken = append(taken, choice)
 		return choice
 	}
-	defer func() { vsync.Hooks.Choose = nil }()
+	var poolProblem string
+	vsync.Hooks.OnPut = func(p *vsync.Pool, obj any) {
+		if obj == nil {
+			return
+		}
+		for _, it := range p.Items() {
+			if it == obj && poolProblem == "" {
+				poolProblem = fmt.Sprintf("POOL-DISCIPLINE: %T put into its pool while already in it", obj)
+			}
+		}
+	}
+	defer func() { vsync.Hooks.Choose, vsync.Hooks.OnPut = nil, nil }()
 	for _, oi := range hist {
 		last = ops[oi].Do(env)
+	}
+	if poolProblem != "" {
+		last = poolProblem + " | " + last
 	}
 	return last, points, taken, badPrefix
 }
